@@ -8,7 +8,7 @@ Contract on the real `compare` (pytezos.michelson.instructions.compare) for two 
                 equal addresses: named entrypoints in string order (default-vs-named is NOT demanded: uncertain offline)
       key_hash: curve (tz1<tz2<tz3<tz4) then hash bytes
       key     : curve (edpk<sppk<p2pk<BLpk); within edpk/sppk/BLpk by key bytes (the tie-break of P-256 keys is NOT demanded)
-      signature / chain_id of one kind: by decoded bytes (base58 strings of one kind and length order like their numbers)
+      signature: by decoded bytes, whatever the base58 notation (sig/edsig/spsig/p2sig/BLsig); chain_id: by decoded bytes
   * sets and map/big_map keys: a literal is accepted iff strictly increasing for the same relation.
 """
 import itertools, random
@@ -41,7 +41,7 @@ def spec_key(tname, v):
     if tname == 'key':
         return (RANK_KEY[v[:4]], base58_decode(v.encode()))
     if tname in ('signature', 'chain_id'):
-        return (v[:5] if tname == 'signature' else '', base58_decode(v.encode()))
+        return ('', base58_decode(v.encode()))       # signatures compare as bytes whatever their base58 notation
     raise KeyError(tname)
 
 
@@ -54,9 +54,6 @@ def demanded(tname, a, b):
         return True
     if tname == 'key':
         return not (a[:4] == 'p2pk' and b[:4] == 'p2pk')
-    if tname == 'signature':
-        # the same signature kind and length only (different textual kinds of equal raw bytes are not ordered by text)
-        return a[:3] == b[:3] and len(a) == len(b) and a[:5] == b[:5]
     return True
 
 
@@ -109,7 +106,7 @@ def check_pair(tname, a, b):
         return 'law.reflexive', f'compare({a}, {a}) = {aa}'
     if ab != -ba:
         return 'law.antisymmetric', f'compare({a}, {b}) = {ab} but compare({b}, {a}) = {ba}'
-    if (ab == 0) != (a == b or (tname == 'address' and spec_key(tname, a)[:2] == spec_key(tname, b)[:2]
+    if (ab == 0) != (a == b or (tname == 'signature' and spec_key(tname, a) == spec_key(tname, b)) or (tname == 'address' and spec_key(tname, a)[:2] == spec_key(tname, b)[:2]
                                 and {spec_key(tname, a)[2], spec_key(tname, b)[2]} <= {'', 'default'})):
         return 'law.equal_iff_same', f'compare({a}, {b}) = {ab}'
     if demanded(tname, a, b):
@@ -159,7 +156,7 @@ def run_R(ck: Check):
     for f in (T.AddressType.__lt__, T.KeyType.__lt__, T.StringType.__lt__, C.compare):
         ck.function(f)
     ck.assume('base58 strings of one kind and length order like their decoded numbers (base58 alphabet is ASCII-increasing)')
-    ck.assume('not demanded (uncertain offline): default-vs-named entrypoint order, tie-break of P-256 keys, order between textual signature kinds')
+    ck.assume('not demanded (uncertain offline): default-vs-named entrypoint order, tie-break of P-256 keys')
     rng = random.Random(ck.seed + 77)
     k = 12 if ck.thorough() else 4
     ck.rule('R: domain types × boundary/random payloads per kind: all ordered pairs (laws + Tezos order where certain), sampled triples '
